@@ -18,6 +18,9 @@ type replayer struct {
 
 var replayers = map[string]replayer{
 	"C01": {func() []*world.Config { return C01Configs(true) }, func(c *world.Config) explore.Monitor { return &c01Mon{cfg: c} }},
+	"C10": {func() []*world.Config { return C10Configs(true) }, func(c *world.Config) explore.Monitor { return &c10Mon{} }},
+	"C16": {func() []*world.Config { return C16Configs(true) }, func(c *world.Config) explore.Monitor { return &c16Mon{} }},
+	"C13": {func() []*world.Config { return C13Configs(true) }, func(c *world.Config) explore.Monitor { return &c13Mon{} }},
 	"C04": {func() []*world.Config { return StructConfigs(true, []string{"none", "big"}, bothFormats) }, func(c *world.Config) explore.Monitor { return &c04Mon{} }},
 	"C09": {func() []*world.Config { return StructConfigs(true, []string{"none", "big"}, bothFormats) }, func(c *world.Config) explore.Monitor { return &c09Mon{} }},
 	"C08": {func() []*world.Config { return StructConfigs(true, []string{"none", "big"}, bothFormats) }, func(c *world.Config) explore.Monitor { return newC08() }},
